@@ -1,11 +1,12 @@
 import Tahoe.Http.LemmasAuth
 import Tahoe.Http.LemmasSpec
 import Tahoe.Http.LemmasUploads
-/-! C30 — HTTP storage API authorization (property theorems; helper lemmas are in `Tahoe/Http/LemmasAuth.lean`
-and `Tahoe/Http/LemmasSpec.lean`).
+/-! C30 — HTTP storage API authorization (property theorems; helper lemmas are in `Tahoe/Http/LemmasAuth.lean`,
+`LemmasSpec.lean` and `LemmasUploads.lean`).
 
 `step sw st rq` is one request against an `HTTPServer` whose swissnum is `sw`, in state `st` (finished
-immutable shares, uploads in progress, mutable shares, advisories); `run` folds it over a history.  The route
+immutable shares, uploads in progress, mutable shares, advisories); `run` folds it over a history, `runEvents` over a history
+of requests and upload timeouts / disconnects; `migrate` is the share directory served by another node.  The route
 table, the secret names and the fact that every route is wrapped by `_authorization_decorator` are generated from
 the live klein app; the first four theorems pin the documented values, so a changed route or secret requirement
 breaks a named theorem.  The model is per request: nothing but the state connects two requests (in particular no
